@@ -1,6 +1,7 @@
 #!/bin/bash
-# seedtest.sh <seed-name> <prop>...: apply a stored seeded change to /repo, run the given checks, revert
+# seedtest.sh <seed-name|patch-file> <prop>...: run the given checks on /repo with a change applied IN MEMORY
+# (the tree is not touched, the real evidence files are not overwritten). For testing the checker only.
 name=$1; shift
-cd /repo && git apply /verif/seeded/$name/patch.diff || { echo "patch does not apply"; exit 2; }
-for p in "$@"; do (cd /verif && ./check.sh $p quick 2>&1 | grep -v "^KNOWN" | cut -c1-260 | tail -n 4); done
-git -C /repo checkout -- . ; git -C /repo status --short | head -3
+. /verif/env.sh
+p=$name; [ -f "$p" ] || p=/verif/seeded/$name/patch.diff
+for id in "$@"; do /verif/bin/ibcverif check $id --patch "$p" 2>&1 | grep -v "^KNOWN\|^analysing" | cut -c1-260 | tail -n 4; done
